@@ -193,6 +193,12 @@ Theorem block_for_point_unique : forall (polygon : colfun (list pt)) (centre : c
                    li' = li /\ col' = col.
 Proof. exact bcp_unique. Qed.
 Print Assumptions block_for_point_unique.
+Example block_for_point_unique_ex :
+  block_containing_point m_polygon m_centre m_nbrs m_bbox ex_surface m_columns ex_layers (60, 140) (-15) None
+    = Some (2%nat, 4%positive) /\
+  surface_case ex_surface ex_layers (-15) 4%positive = false /\ In 4%positive m_columns /\
+  tiling m_polygon (60, 140) /\ stacked ex_layers /\ off_boundaries ex_layers (-15).
+Proof. exact ex_block. Qed.
 Theorem block_reported_facts : forall (polygon : colfun (list pt)) (centre : colfun pt) (nbrs : colfun (list positive))
     (bbox : colfun rect) (surface : colfun Q) columnlist layerlist pos z qt li col,
   block_containing_point polygon centre nbrs bbox surface columnlist layerlist pos z qt = Some (li, col) ->
@@ -233,6 +239,11 @@ Theorem track_entries_ok : forall (polygon : colfun (list pt)) (lir : colfun boo
             entry_ok polygon lir inters tdist maxside tol l0 l1 cols (d, s).
 Proof. exact track_entries. Qed.
 Print Assumptions track_entries_ok.
+Example track_entries_ok_ex :
+  column_track m_polygon (fun _ => true) ex_inters ex_tdist (fun _ => 100) track_tol (-10, 50) (600, 50)
+               [2; 3; 1]%positive
+  = [(1%positive, (0, 50), (100, 50)); (2%positive, (200, 50), (300, 50))].
+Proof. exact ex_track. Qed.
 (** the track is ordered by the distance of the entry points from the start of the line ... *)
 Theorem track_sorted : forall (polygon : colfun (list pt)) (lir : colfun bool) (inters : colfun (list pt))
     (tdist : pt -> Q) (maxside : colfun Q) tol l0 l1 cols,
